@@ -1160,6 +1160,10 @@ func (sc *serverConn) discardHeaderBlock(fr *FrameHeader) error {
 			// A field cut by the end of the frame is finished by the
 			// CONTINUATION that follows.
 			if errors.Is(err, ErrUnexpectedSize) && !fr.Flags().Has(FlagEndHeaders) {
+				if sc.maxHeaderList > 0 && len(pb) > sc.maxHeaderList {
+					return NewGoAwayError(EnhanceYourCalm, "header list exceeds the maximum size")
+				}
+
 				sc.discardCarry = append(sc.discardCarry, pb...)
 
 				return nil
@@ -1463,6 +1467,14 @@ func (sc *serverConn) handleHeaderFrame(strm *Stream, fr *FrameHeader) error {
 			// CONTINUATION. If END_HEADERS is set, the block is complete and a
 			// truncated field is a decoding error.
 			if errors.Is(err, ErrUnexpectedSize) && len(pb) > 0 && !fr.Flags().Has(FlagEndHeaders) {
+				// What is held over counts against the limit like the fields
+				// already decoded. Otherwise a field that announces a length it
+				// never delivers is buffered one CONTINUATION frame after the
+				// other, and the limit never gets to see it.
+				if sc.maxHeaderList > 0 && strm.headerListSize+len(pb) > sc.maxHeaderList {
+					return NewGoAwayError(EnhanceYourCalm, "header list exceeds the maximum size")
+				}
+
 				err = nil
 				strm.previousHeaderBytes = append(strm.previousHeaderBytes, pb...)
 			} else {
